@@ -80,6 +80,7 @@ func init() {
 			g(rep, "ALLOC-RECORDED", func() { ruleALLOCRECORDED(p, rep) })
 			g(rep, "ALLOC-UNDOABLE", func() { ruleALLOCUNDOABLE(p, rep) })
 			g(rep, "INV-FL", func() { ruleINVFL(p, rep) })
+			g(rep, "TRIM-SOURCE", func() { ruleTRIMSOURCE(p, rep) })
 			g(rep, "PAGE-BOUNDS", func() { rulePAGEBOUNDS(p, rep) })
 			g(rep, "WAL-RELEASE-ON-FREE", func() { ruleWALRELEASEONFREE(p, rep) })
 			g(rep, "TOMBSTONE", func() { ruleTOMBSTONE(p, rep) })
@@ -112,6 +113,7 @@ func init() {
 			g(rep, "UNDO-JOURNAL", func() { ruleUNDOJOURNAL(p, rep) })
 			g(rep, "ALLOC-UNDOABLE", func() { ruleALLOCUNDOABLE(p, rep) })
 			g(rep, "INV-FL", func() { ruleINVFL(p, rep) })
+			g(rep, "TRIM-SOURCE", func() { ruleTRIMSOURCE(p, rep) })
 			g(rep, "DEFERFREE", func() { ruleDEFERFREE(p, rep) })
 			g(rep, "PRECOMMIT-NO-ALIAS", func() { rulePRECOMMITNOALIAS(p, rep) })
 			g(rep, "TRUNCATE-COVERS", func() { ruleTRUNCATECOVERS(p, rep) })
@@ -157,6 +159,7 @@ func init() {
 			g(rep, "REGION-CODEC", func() { ruleREGIONCODEC(p, rep) })
 			g(rep, "PERSIST-AGREE", func() { rulePERSISTAGREE(p, rep) })
 			g(rep, "RELOAD-AGREE", func() { ruleRELOADAGREE(p, rep) })
+			g(rep, "PERSIST-MEMORY-AGREE", func() { rulePERSISTMEMORYAGREE(p, rep) })
 			g(rep, "MMAP-COVERS-FILE", func() { ruleMMAPCOVERSFILE(p, rep) })
 		},
 	})
